@@ -177,13 +177,30 @@ def check_int(ctx, case):
         return [('violation', 'quad-exception', '%s: %s' % (type(e).__name__, str(e)[:200]))]
     pv = [float(q.value) if isinstance(q, pe.Obs) else float(q) for q in p]
     av, bv = [float(q.value) if isinstance(q, pe.Obs) else float(q) for q in lim]
-    exact = (F(pv, bv) - F(pv, av)).real if isinstance(F(pv, bv), complex) else F(pv, bv) - F(pv, av)
+    wgt = kwargs.get('weight')
+    if wgt in ('cos', 'sin'):
+        # scipy's weighted integration (documented keyword arguments of quad, forwarded): int f(x) w(x) dx with
+        # w = cos / sin(wvar x); no closed form is used, value and parameter derivatives are integrated numerically
+        wf = (lambda x: math.cos(kwargs['wvar'] * x)) if wgt == 'cos' else (lambda x: math.sin(kwargs['wvar'] * x))
+        tight = dict(epsabs=1e-13, epsrel=1e-13, limit=200)
+        exact = scipy.integrate.quad(lambda x: float(np.real(func(np.array(pv), x))) * wf(x), av, bv, **tight)[0]
+
+        def dfdp(i, x):
+            pp = np.array(pv, dtype=complex)
+            pp[i] += 1e-30j
+            return func(pp, x).imag / 1e-30
+    else:
+        wf = lambda x: 1.0  # noqa: E731
+        exact = (F(pv, bv) - F(pv, av)).real if isinstance(F(pv, bv), complex) else F(pv, bv) - F(pv, av)
     inputs, grads = [], []
     for i, q in enumerate(p):
         if isinstance(q, pe.Obs):
             inputs.append(q)
-            grads.append(cstep(F, pv, bv, i) - cstep(F, pv, av, i))
-    fplain = lambda x: float(np.real(func(np.array(pv), x)))  # noqa: E731
+            if wgt in ('cos', 'sin'):
+                grads.append(scipy.integrate.quad(lambda x, i=i: dfdp(i, x) * wf(x), av, bv, **tight)[0])
+            else:
+                grads.append(cstep(F, pv, bv, i) - cstep(F, pv, av, i))
+    fplain = lambda x: float(np.real(func(np.array(pv), x))) * wf(x)  # noqa: E731
     if isinstance(lim[0], pe.Obs):
         inputs.append(lim[0])
         grads.append(-fplain(av))
@@ -245,7 +262,8 @@ def gen_case(ctx):
     lk = [rng.choice(kinds), rng.choice(kinds)]
     if mode == 'eq' and lk == [None, None]:
         lk[rng.randrange(2)] = 'mc'
-    kw = rng.choice([None, None, {'epsabs': 1e-12, 'epsrel': 1e-12}, {'limit': 80}, {'full_output': 1}])
+    kw = rng.choice([None, None, {'epsabs': 1e-12, 'epsrel': 1e-12}, {'limit': 80}, {'full_output': 1},
+                     {'weight': 'cos', 'wvar': 3.0}, {'weight': 'sin', 'wvar': 1.7}])
     case = {'what': 'int', 'family': fam, 'seed': rng.getrandbits(28), 'means': means, 'pkinds': pk, 'limits': [a, b], 'lkinds': lk,
             'exact_limits': mode == 'eq' or rng.random() < 0.3, 'share_limit': rng.random() < 0.15 and mode != 'eq', 'kwargs': kw}
     if rng.random() < 0.2:
